@@ -46,11 +46,13 @@ pub fn universe(rng: &mut Rng) -> Vec<il::Scalar> {
 pub fn default_cfg(rng: &mut Rng, scalars: &[il::Scalar]) -> GenCfg {
     let mut cfg = GenCfg::default_with(scalars.to_vec());
     cfg.small_consts = true;
-    cfg.max_blocks = rng.range(2, 5) as usize;
+    cfg.max_blocks = rng.range(3, 6) as usize;
+    cfg.min_blocks = 2;
+    cfg.ensure_exit = rng.chance(3, 4);
     cfg.max_ins = rng.range(1, 3) as usize;
     cfg.expr_depth = rng.range(1, 2) as u32;
     cfg.allow_div = rng.chance(1, 4);
-    cfg.allow_mem = rng.chance(1, 2);
+    cfg.allow_mem = rng.chance(2, 3);
     cfg.allow_intrinsic = rng.chance(1, 4);
     cfg.allow_branch = rng.chance(1, 6);
     cfg.mem_bases = vec![0x2000];
